@@ -10,7 +10,7 @@ From V Require Import base.Cal gen.RrTables rr.RRBase rr.RRNorm rr.RRMasks rr.RR
   rr.RRMonthlyThm rr.RRWeeklyThm rr.RRSubHourRun rr.RRSubMinRun rr.RRSubSecRun rr.RRSubFamily rr.RRSubProps
   rr.RRSubClose rr.RRSubCloseGen rr.RRSubCloseFam rr.RRSubCloseGen2 rr.RRSubStopFam rr.RRSubSpecCoh rr.RRSubSame
   rr.RRSubAdvance rr.RRSetposThm rr.RRCoarseRun rr.RRMonthlyFullThm rr.RRMonthlyNthThm rr.RRYearlyFullThm
-  rr.RRDailyFullThm rr.RRWeeklySetposThm.
+  rr.RRDailyFullThm rr.RRWeeklySetposThm rr.RRYearlyMonthNthThm rr.RRSortedThm rr.RRCoarseTop rr.RRNoRaise rr.RRStripThm rr.RRStripSubThm.
 Import ListNotations.
 Open Scope Z_scope.
 
@@ -944,23 +944,136 @@ Theorem C01_rrule_iter_correct_weekly_setpos_partial : forall r rl limit n,
 Proof. exact weekly_iter_correct_full. Qed.
 Print Assumptions C01_rrule_iter_correct_weekly_setpos_partial.
 
-(* SUMMARY for FREQ in YEARLY..DAILY: model = specification at equal fuel for every rule of the domain with
-   BYWEEKNO in the RFC range, without BYEASTER, whose BYDAY is plain (MONTHLY: any; YEARLY: nth weekdays
-   allowed when there is no BYMONTH); WEEKLY additionally: weeks within the representable range *)
-Theorem C01_rrule_iter_correct_coarse_partial : forall r rl limit n,
-  normalize r = Ok rl -> spec_wf r = true ->
-  all_opt (r_byweekno r) weekno_safe = true -> r_byeaster r = None ->
-  (r_freq r = YEARLY /\ (plain_only r = true \/ r_bymonth r = None)) \/
-  r_freq r = MONTHLY \/
-  (r_freq r = WEEKLY /\ plain_only r = true /\ (r_bysetpos r <> None -> 1 <= ws0 r) /\
-   (n <> 0%nat -> wlo r (Z.of_nat n - 1) + 6 <= max_ord)) \/
-  (r_freq r = DAILY /\ plain_only r = true) ->
+(* ---- YEARLY with BYMONTH and nth weekdays (FREQ=YEARLY;BYMONTH=3;BYDAY=-1SU: every daylight-saving rule) *)
+Theorem C01_nwdaymask_months_calendar : forall y months pairs,
+  (forall mo, In mo months -> 1 <= mo <= 12) -> (forall wn, In wn pairs -> pair_ok wn) ->
+  let ywd := weekday_of_ord (jan1 y) in
+  exists m,
+    fold_res (nwd_range (wdm_of ywd) pairs) (month_ranges y months) (zeros (Z.to_nat (year_len y))) = Ok m /\
+    length m = Z.to_nat (year_len y) /\
+    forall j, 0 <= j < year_len y ->
+      nzb (nth (Z.to_nat j) m 0) =
+      existsb (fun mo => (dbm y mo <=? j) && (j <? dbm y (mo + 1)) &&
+                         existsb (fun wn => (weekday_of_ord (jan1 y + j) =? fst wn) &&
+                                            nth_in (j + 1 - dbm y mo) (dim y mo) (snd wn)) pairs) months.
+Proof. exact nwdaymask_months_calendar. Qed.
+Print Assumptions C01_nwdaymask_months_calendar.
+
+Theorem C01_day_filter_correct_yearly_bymonth_nth : forall r rl y month ii i lm,
+  normalize r = Ok rl -> spec_wf r = true -> r_freq r = YEARLY -> r_bymonth r = Some lm ->
+  truthy (bynweekday rl) = true -> all_opt (r_byweekno r) weekno_safe = true -> r_byeaster r = None ->
+  1 <= y <= 9999 -> rebuild rl ii_init y month = Ok ii -> 0 <= i < year_len y ->
+  day_rejected rl ii i = Ok (negb (day_ok r (jan1 y + i))).
+Proof. exact day_filter_correct_yearly_bymonth_nth. Qed.
+Print Assumptions C01_day_filter_correct_yearly_bymonth_nth.
+
+(* every YEARLY rule of the specification's domain without BYEASTER (BYWEEKNO in the RFC range); EVERY fuel *)
+Theorem C01_rrule_iter_correct_yearly_all_partial : forall r rl limit n,
+  normalize r = Ok rl -> yfam_noe r ->
   fst (iterate rl limit n) = fst (spec_iter r limit n).
-Proof.
-  intros r rl limit n HN HW Hs He [[Hf Hk]|[Hf|[(Hf & Hp & Hw & Hn)|[Hf Hp]]]].
-  - apply (yearly_iter_correct_full r rl limit n HN). constructor; assumption.
-  - apply (monthly_iter_correct_all r rl limit n HN). constructor; assumption.
-  - apply (weekly_iter_correct_full r rl limit n HN); [constructor; assumption|exact Hw|exact Hn].
-  - apply (daily_setpos_iter_correct r rl limit n HN). constructor; assumption.
-Qed.
+Proof. exact yearly_iter_correct_noe. Qed.
+Print Assumptions C01_rrule_iter_correct_yearly_all_partial.
+
+(* ---- SUMMARY for FREQ in YEARLY..DAILY.  coarse_guard r n := spec_wf r, BYWEEKNO within -53..53, no BYEASTER,
+   and: YEARLY or MONTHLY (nothing else), or WEEKLY with BYDAY without numeric prefixes, a first week that does
+   not begin before 0001-01-01 when BYSETPOS is used, and the n passes' weeks ending within 9999-12-31, or DAILY
+   with BYDAY without numeric prefixes.  COUNT, UNTIL, INTERVAL, WKST, BYSETPOS, BYMONTH, BYMONTHDAY, BYYEARDAY,
+   BYWEEKNO, BYHOUR/BYMINUTE/BYSECOND are free. *)
+Theorem C01_rrule_iter_correct_coarse_partial : forall r rl limit n,
+  normalize r = Ok rl ->
+  spec_wf r = true /\ all_opt (r_byweekno r) weekno_safe = true /\ r_byeaster r = None /\
+  (r_freq r = YEARLY \/ r_freq r = MONTHLY \/
+   (r_freq r = WEEKLY /\ plain_only r = true /\ (r_bysetpos r <> None -> 1 <= ws0 r) /\
+    (n <> 0%nat -> wlo r (Z.of_nat n - 1) + 6 <= max_ord)) \/
+   (r_freq r = DAILY /\ plain_only r = true)) ->
+  fst (iterate rl limit n) = fst (spec_iter r limit n).
+Proof. exact rrule_iter_correct_coarse. Qed.
 Print Assumptions C01_rrule_iter_correct_coarse_partial.
+
+(* "in order": the specification's sequence is strictly increasing (every rule of the domain with FREQ coarser
+   than HOURLY), hence so is what the generator yields under the guard above; no duplicates *)
+Theorem C01_spec_iter_strictly_increasing : forall r, spec_wf r = true -> r_freq r <= DAILY ->
+  forall limit n, isorted (fst (spec_iter r limit n)).
+Proof. exact spec_iter_sorted. Qed.
+Print Assumptions C01_spec_iter_strictly_increasing.
+
+Theorem C01_rrule_strictly_increasing_partial : forall r rl limit n,
+  normalize r = Ok rl -> coarse_guard r n -> isorted (fst (iterate rl limit n)).
+Proof. exact rrule_strictly_increasing_coarse. Qed.
+Print Assumptions C01_rrule_strictly_increasing_partial.
+
+Theorem C01_rrule_nodup_partial : forall r rl limit n,
+  normalize r = Ok rl -> coarse_guard r n -> NoDup (fst (iterate rl limit n)).
+Proof. exact rrule_nodup_coarse. Qed.
+Print Assumptions C01_rrule_nodup_partial.
+
+(* rrule_only_valueerror, strong form: under the guard of the summary theorem the iteration raises NO exception
+   (no IndexError / TypeError / ValueError): it ends by COUNT, UNTIL, the year-9999 stop, limit or fuel *)
+Theorem C01_rrule_no_exception_partial : forall r rl limit n,
+  normalize r = Ok rl -> coarse_guard r n -> forall e, snd (iterate rl limit n) <> TRaised e.
+Proof. exact rrule_no_exception_coarse. Qed.
+Print Assumptions C01_rrule_no_exception_partial.
+
+(* the constructor accepts every rule of the specification's domain with FREQ coarser than HOURLY *)
+Theorem C01_normalize_total_coarse : forall r, spec_wf r = true -> (r_freq r <? HOURLY) = true ->
+  exists rl, normalize r = Ok rl.
+Proof. exact normalize_total_coarse. Qed.
+Print Assumptions C01_normalize_total_coarse.
+
+(* constructor + iteration *)
+Theorem C01_rrule_total_coarse_partial : forall r limit n, coarse_guard r n ->
+  exists rl, normalize r = Ok rl /\ forall e, snd (iterate rl limit n) <> TRaised e.
+Proof. exact rrule_total_coarse. Qed.
+Print Assumptions C01_rrule_total_coarse_partial.
+
+(* ---- numeric BYDAY prefixes under FREQ finer than MONTHLY are ignored (rrule.py 597-605), by the constructor
+   and by the specification: the `plain_only` hypothesis of the WEEKLY / DAILY / sub-daily theorems can go *)
+Theorem C01_normalize_strip : forall r, (MONTHLY <? r_freq r) = true -> normalize (strip r) = normalize r.
+Proof. exact normalize_strip. Qed.
+Print Assumptions C01_normalize_strip.
+
+Theorem C01_spec_iter_strip : forall r limit n, (MONTHLY <? r_freq r) = true ->
+  spec_iter (strip r) limit n = spec_iter r limit n.
+Proof. exact spec_iter_strip. Qed.
+Print Assumptions C01_spec_iter_strip.
+
+(* ==== THE HEADLINE, final form.  For every rule of the specification's domain with FREQ in YEARLY..DAILY, BYWEEKNO
+   within the RFC range and without BYEASTER (WEEKLY: for the n passes whose weeks end within 9999-12-31 and, with
+   BYSETPOS, a first week that does not begin before 0001-01-01): *)
+(* (1) the model of rrule.__init__ / _iter / _iterinfo yields exactly the specification's sequence, at equal fuel *)
+Theorem C01_rrule_iter_correct_headline_partial : forall r rl limit n,
+  normalize r = Ok rl ->
+  spec_wf r = true /\ all_opt (r_byweekno r) weekno_safe = true /\ r_byeaster r = None /\
+  (r_freq r = YEARLY \/ r_freq r = MONTHLY \/
+   (r_freq r = WEEKLY /\ (r_bysetpos r <> None -> 1 <= ws0 r) /\
+    (n <> 0%nat -> wlo r (Z.of_nat n - 1) + 6 <= max_ord)) \/
+   r_freq r = DAILY) ->
+  fst (iterate rl limit n) = fst (spec_iter r limit n).
+Proof. exact rrule_iter_correct_coarse_all. Qed.
+Print Assumptions C01_rrule_iter_correct_headline_partial.
+
+(* (2) in strictly increasing order, without duplicates *)
+Theorem C01_rrule_strictly_increasing_headline_partial : forall r rl limit n,
+  normalize r = Ok rl -> coarse_guard_all r n -> isorted (fst (iterate rl limit n)).
+Proof. exact rrule_strictly_increasing_coarse_all. Qed.
+Print Assumptions C01_rrule_strictly_increasing_headline_partial.
+
+Theorem C01_rrule_nodup_headline_partial : forall r rl limit n,
+  normalize r = Ok rl -> coarse_guard_all r n -> NoDup (fst (iterate rl limit n)).
+Proof. exact rrule_nodup_coarse_all. Qed.
+Print Assumptions C01_rrule_nodup_headline_partial.
+
+(* (3) the constructor accepts the rule and nothing raises *)
+Theorem C01_rrule_total_headline_partial : forall r limit n, coarse_guard_all r n ->
+  exists rl, normalize r = Ok rl /\ forall e, snd (iterate rl limit n) <> TRaised e.
+Proof. exact rrule_total_coarse_all. Qed.
+Print Assumptions C01_rrule_total_headline_partial.
+
+(* sub-daily FREQ without the `plain_only` hypothesis: same stream *)
+Theorem C01_rrule_iter_correct_subdaily_stream_all_partial : forall r rl fr, normalize r = Ok rl -> sfam_all r fr ->
+  fr = HOURLY \/ fr = MINUTELY \/ fr = SECONDLY ->
+  forall i x,
+    (exists limit n, nth_error (fst (iterate rl limit n)) i = Some x) <->
+    (exists L d, nth_error (fst (spec_iter r L d)) i = Some x).
+Proof. exact subdaily_iter_correct_all. Qed.
+Print Assumptions C01_rrule_iter_correct_subdaily_stream_all_partial.
